@@ -1,4 +1,4 @@
 From Coq Require Import Extraction ExtrOcamlBasic.
 From PV Require Import Lib.ExtBase C33.Pages C33.Model.
 Extraction "model.ml" ext_base_z ext_base_n ext_base_nat ext_base_res ext_base_list
-  pages_of count_of wf_count span_parts along_parts split_span split_along merge_create zip_merge.
+  pages_of count_of wf_count span_parts along_parts split_span split_along merge_create zip_merge new_numbers.
